@@ -46,6 +46,7 @@ API (parent side, class `PtyHost`)
                                      (`tupimage:TupimageConfig.validate_and_normalize`).
   h.get(path)                        attribute value
   h.config()                         all option values + provenance strings of `terminal._config`
+  h.request(op, _raw=False, **fields)  the underlying RPC; `_raw=True` leaves the result in transport form
   h.run(source, **vars)              escape hatch: exec `source` in the child with globals
                                      {T (terminal or None), tupimage, H (child state), **vars};
                                      the value of the variable `result` is returned.
@@ -279,7 +280,8 @@ class PtyHost:
         except ValueError as e:
             raise PtyHostError(f"bad RPC reply {line[:200]!r}: {e}")
 
-    def request(self, op: str, **fields) -> dict:
+    def request(self, op: str, _raw: bool = False, **fields) -> dict:
+        """One RPC.  With `_raw=True` the `ok` value is left in its transport (`enc`) form."""
         if self._closed:
             raise PtyHostError("host is closed")
         msg = dict(fields, op=op)
@@ -288,7 +290,9 @@ class PtyHost:
         except OSError as e:
             raise PtyHostError(f"pty child {self.pid} is gone: {e}")
         r = self._recv()
-        if "ok" in r:
+        if "tool_error" in r:
+            raise PtyHostError(f"pty child: {r['tool_error']}")
+        if "ok" in r and not _raw:
             r["ok"] = dec(r["ok"])
         return r
 
@@ -313,8 +317,8 @@ class PtyHost:
             raise PtyHostError(f"config(): {r}")
         return r["ok"]
 
-    def run(self, source: str, **vars) -> dict:
-        return self.request("run", source=source, vars=enc(vars))
+    def run(self, source: str, _raw: bool = False, **vars) -> dict:
+        return self.request("run", _raw=_raw, source=source, vars=enc(vars))
 
     def close(self):
         if self._closed:
